@@ -117,6 +117,15 @@ EDITS = [
   "                    node['gpus'][idx] = rpc.DOWN", "                    node['gpus'][idx] = rpc.FREE", 'blocked'),
  ('node-index-constant', 'C18', 'agent/resource_manager/base.py',
   "                      'index' : idx,", "                      'index' : 0,", '_get_node_list'),
+ ('early-not-cleared', 'C12', 'tmgr/scheduler/base.py',
+  "                        del self._early[pid]\n", "", 'control_cb'),
+ ('rr-no-wrap', 'C12', 'tmgr/scheduler/round_robin.py',
+  "                    if self._idx >= len(self._pids):\n                        self._idx = 0",
+  "                    if self._idx > len(self._pids):\n                        self._idx = 0", '_schedule_tasks'),
+ ('rr-removed-still-listed', 'C12', 'tmgr/scheduler/round_robin.py',
+  "                self._pids.remove(pid)\n", "                pass\n", 'remove_pilots'),
+ ('assign-wrong-pilot', 'C12', 'tmgr/scheduler/base.py',
+  "        task['pilot'            ] = pid\n", "        task['pilot'            ] = task.get('pilot')\n", '_assign_pilot'),
 ]
 
 
